@@ -45,7 +45,7 @@ static void dumpB(const void *buf) {
 /* <T>_create with a null reference argument fails: build leaves with start/add/end */
 static EvoB_Leaf_ref_t leafB(flatcc_builder_t *Bd, int v, double w) { EvoB_Leaf_start(Bd); EvoB_Leaf_v_add(Bd, v); if (w != 0) EvoB_Leaf_w_add(Bd, w); return EvoB_Leaf_end(Bd); }
 static EvoA_Leaf_ref_t leafA(flatcc_builder_t *Bd, int v) { EvoA_Leaf_start(Bd); EvoA_Leaf_v_add(Bd, v); return EvoA_Leaf_end(Bd); }
-static void *buildB(flatcc_builder_t *Bd, unsigned v, size_t *size) {
+static void buildB_body(flatcc_builder_t *Bd, unsigned v) {
     flatcc_builder_reset(Bd);
     EvoB_Root_start_as_root(Bd);
     if (v & 1) EvoB_Root_id_add(Bd, (int)(v * 1000 + 7));
@@ -77,6 +77,9 @@ static void *buildB(flatcc_builder_t *Bd, unsigned v, size_t *size) {
     if (v & 512) EvoB_Root_any2_Text_add(Bd, flatbuffers_string_create_str(Bd, "any2"));
     if (v & 1024) { EvoB_Extra_start(Bd); EvoB_Root_ex_add(Bd, EvoB_Extra_end(Bd)); EvoB_Color_enum_t cs[2] = { EvoB_Color_Violet, EvoB_Color_Red }; EvoB_Root_colors_create(Bd, cs, 2); }
     EvoB_Root_end_as_root(Bd);
+}
+static void *buildB(flatcc_builder_t *Bd, unsigned v, size_t *size) {
+    buildB_body(Bd, v);
     return flatcc_builder_finalize_aligned_buffer(Bd, size);
 }
 
@@ -97,6 +100,7 @@ static void *buildA(flatcc_builder_t *Bd, unsigned v, size_t *size) {
     return flatcc_builder_finalize_aligned_buffer(Bd, size);
 }
 
+#ifndef EVO_NO_MAIN
 int main(int argc, char **argv)
 {
     flatcc_builder_t Bd; unsigned v, nvar = argc > 1 ? (unsigned)atoi(argv[1]) : 2048, step = argc > 2 ? (unsigned)atoi(argv[2]) : 1;
@@ -131,3 +135,4 @@ int main(int argc, char **argv)
     flatcc_builder_clear(&Bd);
     return 0;
 }
+#endif
